@@ -23,7 +23,7 @@ from . import tables as T
 ID = 'C16'
 RULE = ('worlds of 2-3 tables over one content from tables.rand_spec (dims 1..4, five value kinds, metadata kinds, six id '
         'alphabets), each built by a different route {16 constructor input forms incl. caller CSR/CSC with stored zeros and '
-        'unsorted indices, sort_order then inverse, filter keeping everything (ids / predicate), subsample at full depth, '
+        'unsorted indices, stored zeros in sparse rows / coo / lil / dok / row dicts / dict, sort_order then inverse, filter keeping everything (ids / predicate), subsample at full depth, '
         'transpose twice, copy, column/row access, nnz, and (30%) a CSR/CSC matrix with stored zeros / unsorted indices put in place directly}; in half of the worlds one table differs in exactly one value (also by 1e-9..1e-12 or one ulp; 10% chains x,y,z with steps d,2d) / id / '
         'order of two ids / metadata entry (changed value, category on one side only, category missing, entry {} on one side) / '
         'presence of metadata / type; programs of 3-10 steps over {nnz, row/column '
@@ -42,7 +42,8 @@ ASSUMPTIONS = ['NaN-free values (property domain); metadata values never differ 
                'the byte-level half of "export the same" is decided by this run, the content-level half by export_factors']
 
 CTOR_FORMS = ['dense', 'dense_int', 'lists', 'triples', 'dict', 'rowarrays', 'rowdicts', 'sparserows',
-              'csr', 'csc', 'coo', 'lil', 'dok', 'bsr', 'csr_zero', 'csr_unsorted', 'csc_zero_unsorted']
+              'csr', 'csc', 'coo', 'lil', 'dok', 'bsr', 'csr_zero', 'csr_unsorted', 'csc_zero_unsorted',
+              'sparserows_zero', 'coo_zero', 'lil_zero', 'dok_zero', 'rowdicts_zero', 'dict_zero']
 HISTORIES = ['sort_inverse', 'filter_ids', 'filter_pred', 'transpose2', 'copy', 'subsample_full',
              'colaccess', 'rowaccess', 'nnz', 'eq_self']
 DESC = {'Tables appear equal': 0, 'Tables are not the same type': 1, 'Observation IDs are not the same': 2,
@@ -107,6 +108,29 @@ def ctor_input(form, M):
         return dok_matrix(M), {}
     if form == 'bsr':
         return bsr_matrix(M), {}
+    if form in ('sparserows_zero', 'coo_zero', 'lil_zero', 'dok_zero', 'rowdicts_zero', 'dict_zero'):
+        # the same forms carrying explicitly stored zeros (up to two per row)
+        z = _raw_compressed(M, 'csr', True, False)
+        if form == 'sparserows_zero':
+            return [z[i] for i in range(r)], {}
+        if form == 'coo_zero':
+            return z.tocoo(), {}
+        cells = [(i, int(j), float(v)) for i in range(r)
+                 for j, v in zip(z.indices[z.indptr[i]:z.indptr[i + 1]], z.data[z.indptr[i]:z.indptr[i + 1]])]
+        if form == 'dict_zero':
+            return {(i, j): v for i, j, v in cells}, {}
+        if form == 'rowdicts_zero':
+            return [{(0, j): v for i2, j, v in cells if i2 == i} for i in range(r)], {}
+        m = lil_matrix(M) if form == 'lil_zero' else dok_matrix(M)
+        for i, j, v in cells:
+            if v == 0:
+                if form == 'lil_zero':
+                    k = sum(1 for x in m.rows[i] if x < j)
+                    m.rows[i].insert(k, j)
+                    m.data[i].insert(k, 0.0)
+                else:
+                    dict.__setitem__(m._dict if hasattr(m, '_dict') else m, (i, j), 0.0)
+        return m, {}
     if form == 'csr_zero':
         return _raw_compressed(M, 'csr', True, False), {}
     if form == 'csr_unsorted':
@@ -406,6 +430,46 @@ def _h5v(x):
     return x
 
 
+def stored_queries(t):
+    """what the queries that look at STORED entries answer (asked of a deep copy, which keeps the very
+    arrays; Table.copy would clean them): min per axis and overall, nonzero(), stored-entry count"""
+    t = copy.deepcopy(t)
+    stored = int(t.matrix_data.nnz)
+    nz = sorted([str(o), str(s)] for o, s in t.nonzero())
+
+    def mn(ax):
+        try:
+            return [float(x) for x in np.atleast_1d(t.min(ax))]
+        except ValueError:
+            return 'no-entry'
+    return [stored, nz, mn('observation'), mn('sample'), mn('whole')]
+
+
+def injected(c):
+    return any(isinstance(s, list) and s[0] == 'inject' for t in c['tables'] for s in t['route'])
+
+
+def poke(w, specs, pk):
+    """after the program: derive a twin of table i by sort_order and back, then change the twin IN PLACE;
+    equality must turn False in both directions and table i must be unchanged"""
+    i, axis, idx = pk['i'], pk['axis'], pk['idx']
+    t = w[i]
+    ids = list(t.ids(axis=axis))
+    twin = t.sort_order(ids[::-1], axis=axis).sort_order(ids, axis=axis)
+    before = T.norm_snap(T.snapshot(t))
+    eq0 = int(bool(t == twin) and bool(twin == t))
+    if pk['how'] == 'add_metadata':
+        twin.add_metadata({ids[idx % len(ids)]: {'zz_poked': 'x'}}, axis=axis)
+    else:
+        md = twin.metadata(axis=axis)
+        if md is None:
+            twin.add_metadata({ids[idx % len(ids)]: {'zz_poked': 'x'}}, axis=axis)
+        else:
+            keys = sorted({k for m in md for k in m})
+            twin.del_metadata(keys=keys[:1], axis=axis)
+    return ['poke', eq0, int(bool(t == twin)), int(bool(twin == t)), int(T.norm_snap(T.snapshot(t)) == before)]
+
+
 def exports(t, with_hdf5=True):
     j = json.loads(t.to_json('c16'))
     j.pop('date', None)
@@ -427,6 +491,7 @@ def _run_impl(c):
     w = build_world(c)
     specs = [table_spec(c, k) for k in range(len(w))]
     coh = [int(is_coherent(t, s)) for t, s in zip(w, specs)]
+    pre = None if injected(c) else [stored_queries(t) for t in w]
     trace = []
     for o in c['prog']:
         k = o[0]
@@ -453,6 +518,12 @@ def _run_impl(c):
     contents = [T.norm_snap(T.spec_content(s)) for s in specs[:n0]]
     pairs = [[int(contents[i] == contents[j]) for j in range(n0)] for i in range(n0)]
     out = ['ok', coh, trace, pairs]
+    # equal tables answer the stored-entry queries alike, before any accessor ran and after the program
+    # (not asked where the harness itself put stored zeros in place)
+    post = None if injected(c) else [stored_queries(t) for t in w[:n0]]
+    out.append([] if pre is None else
+               [[i, j, int(pre[i] == pre[j]), int(post[i] == post[j])] for i in range(n0) for j in range(i + 1, n0) if pairs[i][j]])
+    out.append(poke(w, specs, c['poke']) if c.get('poke') else [])
     if c.get('exports'):
         need = {i for i in range(n0) for j in range(n0) if i != j and pairs[i][j]}
         ex = [exports(w[i], hdf5_writable(specs[i])) if i in need else None for i in range(n0)]
@@ -499,8 +570,10 @@ def decode(tree, c):
         else:
             tr.append([o[0], rep(o[1]), rep(o[2])])
     out = ['ok', coh, tr, pairs]
+    n0 = len(c['tables'])
+    out.append([] if injected(c) else [[i, j, 1, 1] for i in range(n0) for j in range(i + 1, n0) if pairs[i][j]])
+    out.append(['poke', 1, 0, 0, 1] if c.get('poke') else [])
     if c.get('exports'):
-        n0 = len(c['tables'])
         out.append([[i, j, 1, 1, 1] for i in range(n0) for j in range(i + 1, n0) if pairs[i][j]])
     return out
 
@@ -683,7 +756,11 @@ def gen_case(rng):
     for i in range(n):
         for j in range(n):
             prog.append(['cmp', i, j, rng.choice(['eq', 'ne', 'desc'])])
-    return {'spec': spec, 'tables': tabs, 'prog': prog, 'exports': rng.random() < 0.5}
+    pk = None
+    if rng.random() < 0.4:
+        pk = {'i': rng.randrange(n), 'axis': rng.choice(['sample', 'observation']), 'idx': rng.randrange(4),
+              'how': rng.choice(['add_metadata', 'del_metadata'])}
+    return {'spec': spec, 'tables': tabs, 'prog': prog, 'exports': rng.random() < 0.5, 'poke': pk}
 
 
 def gen(rng, tier):
@@ -743,8 +820,22 @@ def oracle(c, obs):
                 if len({x, y, z}) == 3 and last.get((x, y)) and last.get((y, z)) and last.get((x, z)) is False:
                     fails.append('equality is not transitive: tables %d,%d and %d,%d compare equal, %d,%d do not'
                                  % (x, y, y, z, x, z))
-    if c.get('exports') and len(obs) > 4:
-        for i, j, tsv, js, h5 in obs[4]:
+    for i, j, before, after in obs[4]:
+        if not before:
+            fails.append('freshly built equal tables %d (%s) and %d (%s) answer min / nonzero / stored count differently'
+                         % (i, c['tables'][i]['route'], j, c['tables'][j]['route']))
+        if not after:
+            fails.append('after the program equal tables %d and %d answer min / nonzero / stored count differently' % (i, j))
+    if obs[5]:
+        _, eq0, e1, e2, same = obs[5]
+        if not eq0:
+            fails.append('a table and its sort_order/inverse twin do not compare equal')
+        if e1 or e2:
+            fails.append('after changing the twin in place the tables still compare equal')
+        if not same:
+            fails.append('changing the twin in place changed the original table')
+    if c.get('exports') and len(obs) > 6:
+        for i, j, tsv, js, h5 in obs[6]:
             for name, okk in (('to_tsv', tsv), ('to_json', js), ('to_hdf5', h5)):
                 if not okk:
                     fails.append('%s differs between equal tables %d and %d' % (name, i, j))
@@ -784,6 +875,8 @@ def classify(c):
         tags.append('op:' + (o[2][0] if o[0] == 'acc' else o[0] + (':' + o[3] if o[0] == 'cmp' else '')))
     if c.get('exports'):
         tags.append('exports')
+    if c.get('poke'):
+        tags.append('poke:' + c['poke']['how'])
     return tags
 
 
@@ -804,6 +897,8 @@ def shrink(c):
             yield dict(c, tables=tabs)
     if c.get('exports'):
         yield dict(c, exports=False)
+    if c.get('poke'):
+        yield dict(c, poke=None)
     s = c['spec']
     if s.get('omd') or s.get('smd'):
         if not any(t.get('mut') and t['mut'][0] in ('omd', 'smd') for t in c['tables']):
